@@ -398,6 +398,9 @@ func (e *Enc) calleeEffects(ci *calleeInfo, env *Env) (writes []string, hasMod b
 	} else if !ci.inRepo {
 		hasMod = true // externals without contract: assumed to modify nothing (listed as assumption)
 	}
+	if ci.inRepo && w.implicitNothing && (ci.spec == nil || len(ci.spec.Modifies) == 0) {
+		hasMod = true // checked in the same run (implicit `modifies nothing`)
+	}
 	// snapshot of pre-state versions for evaluating the predicate
 	snap := map[string]int{}
 	for k, v := range e.cur {
